@@ -186,6 +186,19 @@ def function_inputs(target, seed=0, n=400):
         for _ in range(n):
             k = rng.randint(1, 3)
             yield dict(reference_labels=[rng.choice(labs) for _ in range(k)], estimated_labels=[rng.choice(labs) for _ in range(k)])
+    if target in ('segment.detection', 'segment.deviation'):
+        def seg():
+            k = rng.randint(1, 7)
+            cuts = sorted(rng.sample([0.5 * x for x in range(1, 40)], k - 1)) if k > 1 else []
+            b = [0.0] + cuts + [20.0 + rng.choice([0.0, 1.5])]
+            return [[b[i], b[i + 1]] for i in range(len(b) - 1)]
+        for _ in range(n):
+            a = seg()
+            b = [list(r) for r in a] if rng.random() < 0.3 else seg()
+            d = dict(reference_intervals=a, estimated_intervals=b, trim=rng.random() < 0.5)
+            if target == 'segment.detection':
+                d.update(window=rng.choice([0.5, 0.25, 3.0]), beta=rng.choice([1.0, 2.0]))
+            yield d
     if target == 'key.weighted_score':
         ks = ['C major', 'c minor', 'G major', 'a minor', 'A major', 'e minor', 'Eb major', 'd# minor', 'X', 'x', 'F# other', 'Gb other', 'B major', 'Cb' ]
         ks = [k for k in ks if ' ' in k or k.lower() == 'x']
